@@ -95,7 +95,7 @@ type vrDone struct {
 	rep  *vMsg
 }
 
-func vrPoolRound(seed int64, cfg vCfg, workers, iters int) {
+func vrPoolRound(seed int64, cfg vCfg, workers, iters int) (pool int, leak int, cntok bool) {
 	fcc := &vrFakeCC{}
 	gb := newBuilder().Build(fcc, balancer.BuildOptions{})
 	bc := &GCPBalancerConfig{ApiConfig: vApiConfig(cfg)}
@@ -193,6 +193,37 @@ func vrPoolRound(seed int64, cfg vCfg, workers, iters int) {
 	wg.Wait()
 	atomic.StoreInt32(&stop, 1)
 	<-envDone
+	// quiescent now: complete what is still open, then the bookkeeping must be consistent again
+	for {
+		select {
+		case d := <-dones:
+			d.done(balancer.DoneInfo{})
+			d.ctx.end(context.Canceled)
+			continue
+		default:
+		}
+		break
+	}
+	g := gb.(*gcpBalancer)
+	g.mu.Lock()
+	pool = len(g.scRefs)
+	for _, ref := range g.scRefList {
+		leak += int(ref.getStreamsCnt())
+	}
+	var nr, nc, nt uint64
+	for _, st := range g.scStates {
+		switch st {
+		case connectivity.Ready:
+			nr++
+		case connectivity.Connecting:
+			nc++
+		case connectivity.TransientFailure:
+			nt++
+		}
+	}
+	cntok = nr == g.csEvltr.numReady && nc == g.csEvltr.numConnecting && nt == g.csEvltr.numTransientFailure && len(g.scStates) == len(g.scRefs)
+	g.mu.Unlock()
+	return
 }
 
 func TestVerifRacePool(t *testing.T) {
@@ -210,9 +241,39 @@ func TestVerifRacePool(t *testing.T) {
 		{Min: 3, Max: 3, Wm: 100, Rr: true},
 		{Min: 2, Max: 2, Wm: 3, Fb: true},
 	}
+	var enc *json.Encoder
+	if out := os.Getenv("VERIF_OUT"); out != "" {
+		fo, err := os.Create(out)
+		if err != nil {
+			t.Fatal(err)
+		}
+		defer fo.Close()
+		enc = json.NewEncoder(fo)
+	}
+	if os.Getenv("VERIF_JITTER") != "" {
+		r := rand.New(rand.NewSource(seed))
+		var jmu sync.Mutex
+		verifYieldFn = func(site string) {
+			jmu.Lock()
+			x := r.Intn(100)
+			jmu.Unlock()
+			if x < 20 {
+				time.Sleep(time.Duration(10+x*4) * time.Microsecond)
+			} else if x < 60 {
+				runtime.Gosched()
+			}
+		}
+		defer func() { verifYieldFn = nil }()
+	}
 	for k := 0; k < rounds; k++ {
 		verifSetTicks(0)
-		vrPoolRound(seed*1000+int64(k), cfgs[k%len(cfgs)], 6, 300)
+		cfg := cfgs[k%len(cfgs)]
+		pool, leak, cntok := vrPoolRound(seed*1000+int64(k), cfg, 6, 300)
+		if enc != nil {
+			sid := fmt.Sprintf("conc-%d", k)
+			enc.Encode(vsgEvent{Sid: sid, Op: "reset", Res: "OK", Cfg: cfg})
+			enc.Encode(vsgEvent{Sid: sid, I: 1, Op: "stress", Kind: "conc", Pool: pool, Max: cfg.Max, Leak: leak, CntOk: cntok, Res: "OK"})
+		}
 	}
 	fmt.Printf("VERIF-RACE-POOL rounds=%d\n", rounds)
 }
@@ -296,6 +357,8 @@ type vsgEvent struct {
 	Pool  int    `json:"pool"`
 	Max   int    `json:"max"`
 	News  int    `json:"news"`
+	Leak  int    `json:"leak"`  // sum of the stream counters after every call completed
+	CntOk bool   `json:"cntok"` // evaluator counters equal the cardinalities of the recorded states
 	Res   string `json:"res"`
 	Cfg   vCfg   `json:"cfg"`
 }
@@ -390,7 +453,7 @@ func TestVerifStressGrowth(t *testing.T) {
 		max := 3 + k%2
 		enc.Encode(vsgEvent{Sid: fmt.Sprintf("stress-%d", k), Op: "reset", Res: "OK", Cfg: vCfg{Min: 2, Max: max, Wm: 1}})
 		pool, news := vsgRound(seed*100000+int64(k), max)
-		enc.Encode(vsgEvent{Sid: fmt.Sprintf("stress-%d", k), I: 1, Op: "stress", Kind: "growth", Pool: pool, Max: max, News: news, Res: "OK"})
+		enc.Encode(vsgEvent{Sid: fmt.Sprintf("stress-%d", k), I: 1, Op: "stress", Kind: "growth", Pool: pool, Max: max, News: news, CntOk: true, Res: "OK"})
 	}
 	fmt.Printf("VERIF-STRESS-GROWTH rounds=%d\n", rounds)
 }
